@@ -65,6 +65,21 @@ pub struct PipeOut {
     pub metadata: String,
     /// Debug rendering of the graphics pipeline state
     pub state: String,
+    /// (bind group, binding name, api location, descriptor count) of every metadata entry, in order
+    pub slots: Vec<(usize, String, String, Option<u32>)>,
+}
+
+pub fn slots_of(meta: &rssl::PipelineDescription) -> Vec<(usize, String, String, Option<u32>)> {
+    let mut v = Vec::new();
+    for (g, group) in meta.bind_groups.iter().enumerate() {
+        for b in &group.bindings {
+            v.push((g, b.name.clone(), format!("{:?}", b.api_binding), b.descriptor_count));
+        }
+        if let Some(ic) = &group.inline_constants {
+            v.push((g, "<inline constants>".into(), format!("Index({})", ic.api_location), Some(ic.size_in_bytes)));
+        }
+    }
+    v
 }
 
 impl PipeOut {
@@ -150,6 +165,7 @@ pub fn compile(job: &Job) -> CompileOutcome {
                             )
                         })
                         .collect(),
+                    slots: slots_of(&p.metadata),
                     metadata: format!("{:?}", p.metadata),
                     state: format!("{:?}", p.graphics_pipeline_state),
                 })
@@ -241,6 +257,7 @@ pub fn compile_disk(root: &str, entry: &str, target: Tgt, mode: Mode) -> Compile
                         .iter()
                         .map(|s| (format!("{:?}", s.stage), s.entry_point.clone(), s.thread_group_size))
                         .collect(),
+                    slots: slots_of(&p.metadata),
                     metadata: format!("{:?}", p.metadata),
                     state: format!("{:?}", p.graphics_pipeline_state),
                 })
